@@ -331,6 +331,16 @@ Definition ex_file (lasts : list (N * Z)) : file :=
      f_proofs := map fst lasts;
      f_recs := map (fun kl => (fst kl, {| pr_prover := fst kl; pr_last := snd kl |})) lasts;
      f_live := true |}.
+(* the size hypothesis of the block theorems is what stateless validation provides: a file admitted by
+   MsgPostFile.ValidateBasic ([post_admissible], tied to the code on every run) that lists at most MaxProofs
+   provers contributes a footprint that is non-negative, fits int64 and is not changed by Go's wrap-around *)
+Theorem C03_admitted_file_footprint_fits_int64 :
+  forall size maxproofs n,
+    post_admissible size maxproofs = true -> 0 <= n <= maxproofs ->
+    0 <= size * n <= int64_max /\ wrap64 (size * n) = size * n.
+Proof. exact admissible_footprint_fits. Qed.
+Print Assumptions C03_admitted_file_footprint_fits_int64.
+
 (* height 300: the previous window starts at 210; A = 1 fails by one block, B = 2 and C = 3 pass *)
 Definition ex_abc : file := ex_file [(1%N, 209); (2%N, 210); (3%N, 299)].
 
